@@ -17,6 +17,17 @@ import population
 
 THEOREMS = ["Nmfu.C05_optimised_equivalent", "Nmfu.C05_lag_at_most_one_step",
             "Nmfu.certOK_sound", "Nmfu.certOK_lag_one"]
+# the optimiser itself, for every machine: the mirror of `_optimize_simplify_transition_matches`
+# (compared with the real pass on every invocation observed) leaves every dispatch tree unchanged
+OPT_THEOREMS = ["Nmfu.C05_simplify_else_preserves", "Nmfu.C05_simplify_else_preserves_with_start",
+                "Nmfu.Machine.simplifyElse_dispatch", "Nmfu.feedArm_simplify", "Nmfu.endArm_simplify",
+                "Nmfu.simplifyElse_needs_determinism"]
+PASS_CFGS = ("O3", "O0+simplify", "O0+remove", "O1")
+
+
+def optpasses_name(kind):
+    import optpasses
+    return optpasses.PASSES[kind]
 
 
 def flag_name(nmfu, value):
@@ -78,9 +89,25 @@ def work(job):
         if rtdiff.machine_known_spin("", ta):
             res["status"] = "excluded:spin-through-outofspace-redirect (the finding recorded under C04)"
             return res
+        import optpasses
+        res["passes"] = []
         for name, args in configs(nmfu, tier):
-            o = compile_program(prog["src"], args + prog["args"], codegen=False,
-                                want_pre=(lambda self: export_machine(self)) if name == "O3" else None)
+            plog = []
+            with optpasses.record(plog if name in PASS_CFGS else None):
+                o = compile_program(prog["src"], args + prog["args"], codegen=False,
+                                    want_pre=(lambda self: export_machine(self)) if name == "O3" else None)
+            for rec in plog:
+                j = optpasses.judge(_model, rec)
+                j["cfg"] = name
+                if not j.get("same") or not j.get("det"):
+                    # the mirror does not reproduce the real pass here, or the theorem's hypothesis fails:
+                    # compare the machine before and after this very invocation by the certificate
+                    v, r, r2 = equiv(rec["before"], rec["after"])
+                    j["equiv"] = v
+                    j["equiv_detail"] = r[:1200]
+                else:
+                    j.pop("raw", None)
+                res["passes"].append(j)
             if not o.ok:
                 res["pairs"].append({"cfg": name, "verdict": "verdict-differs", "detail": repr(o)})
                 continue
@@ -241,6 +268,7 @@ def confirm_on_c(prog, argsA, argsB, word, wd):
 def main():
     ck = Check("C05", "translation_validation")
     ck.lean_obligations("NmfuProps.C05", THEOREMS)
+    ck.lean_obligations("NmfuProps.C05Opt", OPT_THEOREMS)
     n_gen = 150 if ck.tier == "quick" else 2500
     progs = list(population.population(ck.seed, n_gen))
     with mp.Pool(min(14, os.cpu_count() or 4), initializer=_init) as pool:
@@ -266,6 +294,45 @@ def main():
                 ck.notes.append({"tool_error": r["name"], "detail": r["status"]})
                 continue
             stats["accepted"] += 1
+            prog_r = byname[r["name"]]
+            for j in r.get("passes", []):
+                ps = stats.setdefault("pass_invocations", {}).setdefault(j["pass"], {
+                    "observed": 0, "modifying": 0, "mirror_agrees": 0, "deterministic": 0, "by_theorem": 0, "by_certificate": 0})
+                ps["observed"] += 1
+                ps["modifying"] += 1 if j["mod"] else 0
+                ps["mirror_agrees"] += 1 if j.get("same") else 0
+                ps["deterministic"] += 1 if j.get("det") else 0
+                ck.obligations += 1
+                if j.get("same") and j.get("det"):
+                    # simplify: C05_simplify_else_preserves applies (same machine); remove: the mirror is the tie,
+                    # behaviour preservation of this invocation is covered by the -O0 / pre-vs-post certificates
+                    if j["pass"] == "simplify":
+                        ps["by_theorem"] += 1
+                    ck.discharged += 1
+                    continue
+                ev = j.get("equiv")
+                if ev == "mismatch":
+                    d = j.get("equiv_detail", "")
+                    word = [int(x) for x in d.split("word=")[1].split(" sym=")[0].split()] if "word=" in d else []
+                    sym = int(d.split(" sym=")[1].split()[0]) if " sym=" in d else None
+                    ck.report(f"{population.src_hash(prog_r['src'])}/pass-{j['pass']}",
+                              f"the {j['pass']} pass changed the behaviour of the machine of {r['name']} (witness word {word + ([sym] if sym is not None else [])})",
+                              {"program": prog_r["src"], "args": prog_r["args"], "cfg": j["cfg"], "pass": j["pass"],
+                               "witness_word": word + ([sym] if sym is not None else []), "checker": d, "driver": j.get("raw")})
+                elif not j.get("same"):
+                    bm = stats.setdefault("pass_mirror_breaks", {}).setdefault(j["pass"], [])
+                    if len(bm) < 5:
+                        bm.append({"program": r["name"], "src": prog_r["src"], "args": prog_r["args"], "cfg": j["cfg"],
+                                   "driver": j.get("raw"), "before_vs_after": ev})
+                    else:
+                        bm.append(r["name"])
+                else:
+                    # hypothesis of the theorem not met on this table; the certificate closed for this invocation
+                    ps["by_certificate"] += 1
+                    if ev in ("closed", "closed-lastshift"):
+                        ck.discharged += 1
+                    else:
+                        ck.notes.append({"pass_undecided": r["name"], "pass": j["pass"], "detail": j.get("equiv_detail", "")[:200]})
             for k, v in r["hist"].items():
                 hist[k] = hist.get(k, 0) + v
             if r.get("states", 0) >= 3:
@@ -297,6 +364,13 @@ def main():
                                "witness_word": full, "checker": pr["detail"], "tolerant": pr["detail2"], "c_replay": conf})
                 else:
                     ck.notes.append({"checker_inconclusive": r["name"], "cfg": pr["cfg"], "detail": pr["detail"][:300]})
+        for pname, bm in stats.get("pass_mirror_breaks", {}).items():
+            # the Lean mirror of the pass no longer reproduces what the real pass does (and the machines before
+            # and after the invocation were not shown to differ): the theorem about the mirror says nothing about
+            # the real pass any more
+            ck.broken_obligation(f"correspondence optpass/{pname}: Machine.{'simplifyElse' if pname == 'simplify' else 'removeInaccessible'} "
+                                 f"(NmfuModel/Opt.lean) differs from DfaCompileCtx.{optpasses_name(pname)} on {len(bm)} invocation(s)",
+                                 json.dumps(bm[:5])[:3000])
         # codegen-only flag, on binaries
         rng = random.Random(ck.seed)
         accepted = [byname[r["name"]] for r in results if r["status"] == "ok"]
